@@ -101,6 +101,16 @@ def _orient_key(e: ast.AST) -> tuple:
 
 
 class _Shape(ast.NodeTransformer):
+    def visit_FunctionDef(self, node):
+        self._fdepth = getattr(self, "_fdepth", 0) + 1
+        try:
+            self.generic_visit(node)
+        finally:
+            self._fdepth -= 1
+        return node
+
+    visit_AsyncFunctionDef = visit_FunctionDef
+
     def visit_Call(self, node: ast.Call):
         self.generic_visit(node)
         # K14: `set(chain.from_iterable(E for X in Y))` is `{e for X in Y for e in E}` (likewise list / sorted keep their wrapper):
@@ -136,6 +146,12 @@ class _Shape(ast.NodeTransformer):
         return node
 
     def visit_If(self, node: ast.If):
+        # K16 (see visit_Assign): both arms of `if c: a, b = (X, Y) else: a, b = (Z, b)` are split together
+        arms = [blk[0] for blk in (node.body, node.orelse) if len(blk) == 1 and isinstance(blk[0], ast.Assign)
+                and len(blk[0].targets) == 1 and isinstance(blk[0].targets[0], ast.Tuple) and isinstance(blk[0].value, ast.Tuple)]
+        if len(arms) == 2 and ast.dump(arms[0].targets[0]) == ast.dump(arms[1].targets[0]):
+            for a in arms:
+                a._k16_sibling = True
         self.generic_visit(node)
         # K13: `if A: if B: BODY` (no else on either, the inner if is the only statement) is `if A and B: BODY`
         while not node.orelse and len(node.body) == 1 and isinstance(node.body[0], ast.If) and not node.body[0].orelse \
@@ -174,6 +190,73 @@ class _Shape(ast.NodeTransformer):
                 new_if = ast.copy_location(ast.If(test=neg, body=rest, orelse=[]), st)
                 return seq[:i] + [new_if]
         return seq
+
+    def visit_Assign(self, node: ast.Assign):
+        # K18: `d = {K: V for T in IT}` (one generator, no filter) is `d = {}` followed by `for T in IT: d[K] = V`
+        if getattr(self, "_fdepth", 0) > 0 and len(node.targets) == 1 and isinstance(node.targets[0], ast.Name) and isinstance(node.value, ast.DictComp) \
+                and len(node.value.generators) == 1 and not node.value.generators[0].ifs and not node.value.generators[0].is_async:
+            g = node.value.generators[0]
+            name = node.targets[0].id
+            if not any(isinstance(x, ast.Name) and x.id == name for x in ast.walk(node.value)):
+                init = ast.copy_location(ast.Assign(targets=[ast.Name(id=name, ctx=ast.Store())], value=ast.Dict(keys=[], values=[]),
+                                                    lineno=node.lineno), node)
+                store = ast.Assign(targets=[ast.Subscript(value=ast.Name(id=name, ctx=ast.Load()), slice=node.value.key, ctx=ast.Store())],
+                                   value=node.value.value, lineno=node.lineno)
+                loop = ast.For(target=g.target, iter=g.iter, body=[store], orelse=[], type_comment=None)
+                for n in ast.walk(loop):
+                    if not hasattr(n, "lineno"):
+                        ast.copy_location(n, node)
+                ast.copy_location(loop, node)
+                for n in ast.walk(init):
+                    if not hasattr(n, "lineno"):
+                        ast.copy_location(n, node)
+                self.generic_visit(loop)
+                return [init, loop]
+        # K16: `a, b = (X, Y)` with plain names on the left and no later value reading an earlier target is `a = X; b = Y`;
+        # a resulting `x = x` is dropped
+        self.generic_visit(node)
+        if len(node.targets) == 1 and isinstance(node.targets[0], ast.Tuple) and isinstance(node.value, ast.Tuple) \
+                and len(node.targets[0].elts) == len(node.value.elts) and len(node.value.elts) >= 2 \
+                and all(isinstance(t, ast.Name) for t in node.targets[0].elts) \
+                and not any(isinstance(v, ast.Starred) for v in node.value.elts):
+            names = [t.id for t in node.targets[0].elts]
+            ok = True
+            for j, v in enumerate(node.value.elts):
+                if any(isinstance(x, ast.Name) and x.id in names[:j] for x in ast.walk(v)) or _has_walrus(v):
+                    ok = False
+            # only where some name is rebound to itself (`bom, text = ('', text)`): the artefact of a helper that hands its
+            # unchanged argument back in a tuple - hand-written parallel assignments keep their spelling
+            selfbound = any(isinstance(v, ast.Name) and v.id == t.id for t, v in zip(node.targets[0].elts, node.value.elts))
+            sibling = getattr(node, "_k16_sibling", False)
+            if ok and len(set(names)) == len(names) and (selfbound or sibling):
+                out = []
+                for t, v in zip(node.targets[0].elts, node.value.elts):
+                    if isinstance(v, ast.Name) and v.id == t.id:
+                        continue
+                    out.append(ast.copy_location(ast.Assign(targets=[t], value=v, lineno=node.lineno), node))
+                return out or [ast.copy_location(ast.Pass(), node)]
+        return node
+
+    def visit_Return(self, node: ast.Return):
+        # K17: `return next((ELT for V in IT if C), DEFAULT)` is `for V in IT: if C: return ELT` followed by `return DEFAULT`
+        self.generic_visit(node)
+        v = node.value
+        if isinstance(v, ast.Call) and isinstance(v.func, ast.Name) and v.func.id == "next" and len(v.args) == 2 and not v.keywords \
+                and isinstance(v.args[0], ast.GeneratorExp) and len(v.args[0].generators) == 1 and not v.args[0].generators[0].is_async \
+                and _call_free(v.args[1]) and not _has_walrus(v.args[0]):
+            g = v.args[0].generators[0]
+            hit: ast.stmt = ast.Return(value=v.args[0].elt)
+            if g.ifs:
+                test = g.ifs[0] if len(g.ifs) == 1 else ast.BoolOp(op=ast.And(), values=list(g.ifs))
+                hit = ast.If(test=test, body=[hit], orelse=[])
+            loop = ast.For(target=g.target, iter=g.iter, body=[hit], orelse=[], type_comment=None)
+            for n in (hit, loop):
+                ast.copy_location(n, node)
+            for n in ast.walk(loop):
+                if not hasattr(n, "lineno"):
+                    ast.copy_location(n, node)
+            return [loop, ast.copy_location(ast.Return(value=v.args[1]), node)]
+        return node
 
     def visit_For(self, node: ast.For):
         self.generic_visit(node)
@@ -845,6 +928,20 @@ def _inline_unknown_helpers(tree: ast.Module, modname: str, known: set[str], log
     if not new_fns:
         return
     import copy
+    # a helper made of guard clauses over expressions only (`if C: return A` … `return B`) is the one expression
+    # `A if C else B`: it can then be substituted where it is called from an expression (a comprehension, an argument)
+    for d in new_fns.values():
+        body = list(d.body)
+        doc = []
+        if body and isinstance(body[0], ast.Expr) and isinstance(body[0].value, ast.Constant) and isinstance(body[0].value.value, str):
+            doc, body = body[:1], body[1:]
+        if len(body) >= 2 and isinstance(body[-1], ast.Return) and body[-1].value is not None and all(
+                isinstance(st, ast.If) and not st.orelse and len(st.body) == 1 and isinstance(st.body[0], ast.Return)
+                and st.body[0].value is not None and not _has_walrus(st.test) for st in body[:-1]):
+            expr = body[-1].value
+            for st in reversed(body[:-1]):
+                expr = ast.copy_location(ast.IfExp(test=st.test, body=st.body[0].value, orelse=expr), st)
+            d.body = doc + [ast.copy_location(ast.Return(value=expr), body[-1])]
     _substitute_expression_helpers(tree, new_fns)
     defs = {k: v for k, v in new_fns.items() if _eligible_helper(v)}
     if not defs:
@@ -863,6 +960,81 @@ def _inline_unknown_helpers(tree: ast.Module, modname: str, known: set[str], log
         if not any(isinstance(n, ast.Name) and n.id == name and isinstance(n.ctx, ast.Load) for n in ast.walk(tree)
                    if not any(n is x for x in ast.walk(d))):
             tree.body = [x for x in tree.body if x is not d]
+
+
+def _substitute_expression_methods(tree: ast.Module, modname: str, known: set[str]) -> None:
+    """The same for a METHOD the confirmed tree does not have whose body is a single `return EXPR` (plain, static or class method,
+    positional parameters only, name defined once in the module): `obj.m(a)` with call-free receiver and arguments becomes EXPR with
+    `self` / `cls` read as the receiver."""
+    import copy
+    names: dict[str, int] = {}
+    for n in ast.walk(tree):
+        if isinstance(n, (ast.FunctionDef, ast.AsyncFunctionDef)):
+            names[n.name] = names.get(n.name, 0) + 1
+    simple = {}
+    for c in tree.body:
+        if not isinstance(c, ast.ClassDef):
+            continue
+        for d in c.body:
+            if not isinstance(d, ast.FunctionDef) or f"{modname}.{c.name}.{d.name}" in known or names.get(d.name) != 1 \
+                    or (d.name.startswith("__") and d.name.endswith("__")):
+                continue
+            decos = [ast.unparse(x) for x in d.decorator_list]
+            if any(x not in ("staticmethod", "classmethod") for x in decos):
+                continue
+            body = list(d.body)
+            if body and isinstance(body[0], ast.Expr) and isinstance(body[0].value, ast.Constant) and isinstance(body[0].value.value, str):
+                body = body[1:]
+            a = d.args
+            if len(body) == 1 and isinstance(body[0], ast.Return) and body[0].value is not None and not a.defaults and not a.kwarg \
+                    and not a.kwonlyargs and not a.posonlyargs and not a.vararg \
+                    and not any(isinstance(n, (ast.Lambda, ast.Yield, ast.YieldFrom, ast.Await, ast.NamedExpr)) for n in ast.walk(body[0])) \
+                    and not any(isinstance(n, ast.Call) and isinstance(n.func, ast.Name) and n.func.id == "super" for n in ast.walk(body[0])):
+                simple[d.name] = (d, body[0].value, "static" if "staticmethod" in decos else "bound", c)
+    if not simple:
+        return
+
+    class Sub(ast.NodeTransformer):
+        site_names: set = set()
+
+        def visit_Call(self, node: ast.Call):
+            self.generic_visit(node)
+            if isinstance(node.func, ast.Attribute) and node.func.attr in simple and not node.keywords \
+                    and not any(isinstance(a, ast.Starred) for a in node.args) and _call_free(node.func.value):
+                d, expr, kind, _c = simple[node.func.attr]
+                params = [p.arg for p in d.args.args]
+                bound = {}
+                if kind == "bound":
+                    if not params:
+                        return node
+                    bound[params[0]] = node.func.value
+                    params = params[1:]
+                if len(node.args) != len(params) or not all(_call_free(a) for a in node.args):
+                    return node
+                bound.update(zip(params, node.args))
+                stored = {n.id for n in ast.walk(expr) if isinstance(n, ast.Name) and isinstance(n.ctx, ast.Store)}
+                if stored & set(bound):
+                    return node
+                suffix = "__" + node.func.attr.strip("_")
+
+                class Ren(ast.NodeTransformer):
+                    def visit_Name(self, n):
+                        if n.id in bound and isinstance(n.ctx, ast.Load):
+                            return copy.deepcopy(bound[n.id])
+                        if n.id in stored and n.id in Sub.site_names:
+                            return ast.copy_location(ast.Name(id=n.id + suffix, ctx=n.ctx), n)
+                        return n
+                return ast.copy_location(Ren().visit(copy.deepcopy(expr)), node)
+            return node
+
+    for top in tree.body:
+        Sub.site_names = {n.id for n in ast.walk(top) if isinstance(n, ast.Name)} | {a.arg for n in ast.walk(top) if isinstance(n, ast.arguments) for a in n.args + n.kwonlyargs}
+        Sub().visit(top)
+    # a method nobody calls any more is dropped (its code now stands at the call sites)
+    for name, (d, _e, _k, c) in simple.items():
+        if not any(isinstance(n, ast.Attribute) and n.attr == name for n in ast.walk(tree)):
+            c.body = [x for x in c.body if x is not d] or [ast.Pass()]
+    ast.fix_missing_locations(tree)
 
 
 def _substitute_expression_helpers(tree: ast.Module, defs: dict) -> None:
@@ -1128,12 +1300,142 @@ def functions_of(tree: ast.Module, modname: str):
     yield from rec(tree, modname)
 
 
+# ------------------------------------------------------------------ K15
+def _expand_function_selectors(tree: ast.Module) -> None:
+    """K15: `f = A if T else B` … `x = f(ARGS)` (f bound once, used once as the callee of a simple statement; T call-free over names
+    that are never rebound; A and B plain names / attribute chains) is `if T: x = A(ARGS) else: x = B(ARGS)` - the spelling with the
+    duplicated call, which is the one the rules know."""
+    import copy
+
+    def simple_ref(e):
+        while isinstance(e, ast.Attribute):
+            e = e.value
+        return isinstance(e, ast.Name)
+
+    for fn in [n for n in ast.walk(tree) if isinstance(n, (ast.FunctionDef, ast.AsyncFunctionDef))]:
+        changed = True
+        while changed:
+            changed = False
+            stored: dict[str, int] = {}
+            for n in _walk_own(fn):
+                if isinstance(n, ast.Name) and isinstance(n.ctx, (ast.Store, ast.Del)):
+                    stored[n.id] = stored.get(n.id, 0) + 1
+            blocks = [fn.body] + [b for n in _walk_own(fn) for f in ("body", "orelse", "finalbody") for b in [getattr(n, f, None)] if isinstance(b, list)]
+            for blk in blocks:
+                for i, st in enumerate(blk):
+                    def selector(e) -> bool:
+                        # A if T else (B if U else C): leaves are plain references, tests are call-free over names never rebound
+                        if isinstance(e, ast.IfExp):
+                            return _call_free(e.test) and not _has_walrus(e.test) \
+                                and not any(isinstance(x, ast.Name) and stored.get(x.id) for x in ast.walk(e.test)) \
+                                and selector(e.body) and selector(e.orelse)
+                        return simple_ref(e)
+
+                    if not (isinstance(st, ast.Assign) and len(st.targets) == 1 and isinstance(st.targets[0], ast.Name)
+                            and isinstance(st.value, ast.IfExp) and selector(st.value)):
+                        continue
+                    name, test = st.targets[0].id, st.value.test
+                    if stored.get(name) != 1:
+                        continue
+                    loads = [n for n in ast.walk(fn) if isinstance(n, ast.Name) and n.id == name and isinstance(n.ctx, ast.Load)]
+                    if len(loads) != 1:
+                        continue
+                    # the single use: callee of a call inside a simple statement that comes later in this block (at any depth)
+                    hit = None
+                    for later in blk[i + 1:]:
+                        for holder in ast.walk(later):
+                            for f in ("body", "orelse", "finalbody"):
+                                sub = getattr(holder, f, None)
+                                if not isinstance(sub, list):
+                                    continue
+                                for j, s2 in enumerate(sub):
+                                    if isinstance(s2, (ast.Assign, ast.Expr, ast.Return, ast.AnnAssign, ast.AugAssign)) \
+                                            and any(x is loads[0] for x in ast.walk(s2)):
+                                        hit = (sub, j, s2)
+                        if isinstance(later, (ast.Assign, ast.Expr, ast.Return, ast.AnnAssign, ast.AugAssign)) \
+                                and any(x is loads[0] for x in ast.walk(later)):
+                            hit = (blk, blk.index(later), later)
+                    if hit is None:
+                        continue
+                    sub, j, s2 = hit
+                    calls = [c for c in ast.walk(s2) if isinstance(c, ast.Call) and c.func is loads[0]]
+                    if len(calls) != 1 or any(isinstance(x, (ast.Lambda, ast.ListComp, ast.SetComp, ast.DictComp, ast.GeneratorExp))
+                                              and any(y is loads[0] for y in ast.walk(x)) for x in ast.walk(s2)):
+                        continue
+                    def expand(e):
+                        if isinstance(e, ast.IfExp):
+                            return ast.copy_location(ast.If(test=copy.deepcopy(e.test), body=[expand(e.body)], orelse=[expand(e.orelse)]), s2)
+                        calls[0].func = e
+                        arm = copy.deepcopy(s2)
+                        calls[0].func = loads[0]
+                        return arm
+
+                    sub[j] = expand(st.value)
+                    blk.remove(st)
+                    changed = True
+                    break
+                if changed:
+                    break
+
+
+def _fold_new_constants(tree: ast.Module, modname: str, known: set[str]) -> None:
+    """K19: a module-level name that the confirmed tree does not have, bound once to a string / number literal and never rebound,
+    is read as the literal it stands for (`_BOM = "\\ufeff"` … `text.startswith(_BOM)`)."""
+    cands: dict[str, ast.Constant] = {}
+    for st in tree.body:
+        if isinstance(st, (ast.Assign, ast.AnnAssign)) and st.value is not None and isinstance(st.value, ast.Constant) \
+                and isinstance(st.value.value, (str, int, bytes)) and not isinstance(st.value.value, bool):
+            for t in (st.targets if isinstance(st, ast.Assign) else [st.target]):
+                if isinstance(t, ast.Name) and f"{modname}.{t.id}" not in known:
+                    cands[t.id] = st.value
+    if not cands:
+        return
+    stores: dict[str, int] = {}
+    for n in ast.walk(tree):
+        if isinstance(n, ast.Name) and isinstance(n.ctx, (ast.Store, ast.Del)) and n.id in cands:
+            stores[n.id] = stores.get(n.id, 0) + 1
+        if isinstance(n, (ast.Global, ast.Nonlocal)):
+            for x in n.names:
+                stores[x] = 99
+        if isinstance(n, ast.arg) and n.arg in cands:
+            stores[n.arg] = 99
+    cands = {k: v for k, v in cands.items() if stores.get(k) == 1}
+    if not cands:
+        return
+
+    class _Fold(ast.NodeTransformer):
+        def visit_Name(self, n):
+            if isinstance(n.ctx, ast.Load) and n.id in cands:
+                return ast.copy_location(ast.Constant(value=cands[n.id].value), n)
+            return n
+
+        def visit_Call(self, n):
+            self.generic_visit(n)
+            # len("literal") is a number
+            if isinstance(n.func, ast.Name) and n.func.id == "len" and len(n.args) == 1 and not n.keywords \
+                    and isinstance(n.args[0], ast.Constant) and isinstance(n.args[0].value, (str, bytes)):
+                return ast.copy_location(ast.Constant(value=len(n.args[0].value)), n)
+            return n
+
+    for st in tree.body:
+        if isinstance(st, (ast.FunctionDef, ast.AsyncFunctionDef, ast.ClassDef)):
+            _Fold().visit(st)
+
+
 def canonicalise(tree: ast.Module, modname: str, log: Optional[list] = None) -> ast.Module:
+    _known_consts = set(ref_table().get("__constants__", []))
+    if _known_consts:
+        _fold_new_constants(tree, modname, _known_consts)
+    _expand_function_selectors(tree)
     tree = _Shape().visit(tree)
     table = ref_table()
     known = set(table.get("__functions__", []))
     if known:
+        before = len(tree.body), sum(1 for _ in ast.walk(tree))
+        _substitute_expression_methods(tree, modname, known)
         _inline_unknown_helpers(tree, modname, known, log)
+        if before != (len(tree.body), sum(1 for _ in ast.walk(tree))):
+            tree = _Shape().visit(tree)  # the substituted statements get the same normal form as hand-written ones
     _positionalise(tree)
     fns = list(functions_of(tree, modname))
     # innermost first, so that a nested function is settled before its parent is renamed
@@ -1161,6 +1463,10 @@ def make_table(repo_src: Path) -> dict:
             parts = parts[:-1]
         modname = ".".join(parts)
         tree = _Shape().visit(ast.parse(path.read_text(encoding="utf-8")))
+        for st in tree.body:
+            for t in (st.targets if isinstance(st, ast.Assign) else [st.target] if isinstance(st, ast.AnnAssign) else []):
+                if isinstance(t, ast.Name):
+                    out.setdefault("__constants__", []).append(f"{modname}.{t.id}")
         _positionalise(tree)
         for q, fn in functions_of(tree, modname):
             _inline_temp_returns(fn)
